@@ -197,6 +197,41 @@ func (e *env) judgeAST(doc *ast.Document) string {
 	if r == nil || (r.Data == nil && len(r.Errors) == 0) {
 		return "Execute: neither data nor errors"
 	}
+	// every assignment of the Boolean variables the document declares (variable-driven
+	// directives decide per request what is collected), unvalidated through Execute and
+	// through a plan that is prepared once
+	if names := boolVars(doc); len(names) > 0 {
+		var plan *graphql.Plan
+		guard("PlanQuery", func() { plan, _ = graphql.PlanQuery(&e.f.B.Schema, doc, "") })
+		for k := 0; k < 1<<uint(len(names)); k++ {
+			args := map[string]interface{}{}
+			for i, n := range names {
+				args[n] = k>>uint(i)&1 == 1
+			}
+			var rv *graphql.Result
+			if b := guard(fmt.Sprintf("Execute with %v", args), func() {
+				rv = graphql.Execute(graphql.ExecuteParams{Schema: e.f.B.Schema, AST: doc, Root: e.f.Root, Context: e.f.Ctx, Args: args})
+			}); b != "" {
+				return b
+			}
+			if _, err := json.Marshal(rv); err != nil {
+				return fmt.Sprintf("Execute with %v: result not serialisable: %v", args, err)
+			}
+			if rv == nil || (rv.Data == nil && len(rv.Errors) == 0) {
+				return fmt.Sprintf("Execute with %v: neither data nor errors", args)
+			}
+			if plan != nil {
+				if b := guard(fmt.Sprintf("ExecutePlan with %v", args), func() {
+					rv = graphql.ExecutePlan(plan, graphql.ExecuteParams{Schema: e.f.B.Schema, Root: e.f.Root, Context: e.f.Ctx, Args: args})
+				}); b != "" {
+					return b
+				}
+				if _, err := json.Marshal(rv); err != nil {
+					return fmt.Sprintf("ExecutePlan with %v: result not serialisable: %v", args, err)
+				}
+			}
+		}
+	}
 	var hang string
 	if b := guard("ExecuteSubscription", func() {
 		_, hang = drain(graphql.ExecuteSubscription(graphql.ExecuteParams{Schema: e.f.B.Schema, AST: doc, Root: e.f.Root, Context: e.f.Ctx}))
@@ -385,6 +420,32 @@ func run(c *core.Ctx) {
 		visit("bytes", nil, append([]byte{}, text...))
 		visit("bytes-in-braces", nil, append(append([]byte("{ a "), text...), " }"...))
 	})
+}
+
+// boolVars: names of the variables of (non-null) Boolean type declared by the first
+// operation of a document, at most three.
+func boolVars(doc *ast.Document) (names []string) {
+	defer func() { recover() }()
+	for _, d := range doc.Definitions {
+		op, ok := d.(*ast.OperationDefinition)
+		if !ok {
+			continue
+		}
+		for _, vd := range op.VariableDefinitions {
+			if vd == nil || vd.Variable == nil || vd.Variable.Name == nil {
+				continue
+			}
+			t := vd.Type
+			if nn, ok := t.(*ast.NonNull); ok && nn != nil {
+				t = nn.Type
+			}
+			if n, ok := t.(*ast.Named); ok && n != nil && n.Name != nil && n.Name.Value == "Boolean" && len(names) < 3 {
+				names = append(names, vd.Variable.Name.Value)
+			}
+		}
+		break
+	}
+	return names
 }
 
 func classify(text, bad string) string { return "" }
